@@ -107,6 +107,14 @@ inline double odd_fn(const char *name, double (*f)(double), double u)
     if (verif_symbolic_exec() && !g_numeric) {
         verif_axiom(verif_uf1(name, -u) == -v);
         verif_axiom(u != 0.0 || v == 0.0);
+        // exact special values the library folds (inverse trigonometric table)
+        std::string nm(name);
+        if (nm == "ATAN")
+            verif_axiom(verif_uf1(name, 1.0) == c_pi() * verif_rational(1, 4));
+        if (nm == "ASIN") {
+            verif_axiom(verif_uf1(name, 1.0) == c_pi() * verif_rational(1, 2));
+            verif_axiom(verif_uf1(name, verif_rational(1, 2)) == c_pi() * verif_rational(1, 6));
+        }
     }
     return v;
 }
@@ -234,11 +242,16 @@ inline double ev(const Basic &b, Env &env)
             case SYMENGINE_CSCH: return 2.0 / (Exp(u) - Exp(-u));
             case SYMENGINE_LOG: return Log(u);
             case SYMENGINE_ASIN: return odd_fn("ASIN", ::asin, u);
-            case SYMENGINE_ACOS: return ::acos(u);
+            case SYMENGINE_ACOS: {
+                double r = c_pi() * verif_rational(1, 2) - odd_fn("ASIN", ::asin, u);
+                if (verif_symbolic_exec() && !g_numeric)
+                    verif_axiom(verif_uf1("ACOS", u) == r);
+                return r;
+            }
             case SYMENGINE_ATAN: return odd_fn("ATAN", ::atan, u);
-            case SYMENGINE_ACOT: return ::atan(1.0 / u);
-            case SYMENGINE_ASEC: return ::acos(1.0 / u);
-            case SYMENGINE_ACSC: return ::asin(1.0 / u);
+            case SYMENGINE_ACOT: return odd_fn("ATAN", ::atan, 1.0 / u);
+            case SYMENGINE_ASEC: return c_pi() * verif_rational(1, 2) - odd_fn("ASIN", ::asin, 1.0 / u);
+            case SYMENGINE_ACSC: return odd_fn("ASIN", ::asin, 1.0 / u);
             case SYMENGINE_ASINH: return odd_fn("ASINH", ::asinh, u);
             case SYMENGINE_ACOSH: return ::acosh(u);
             case SYMENGINE_ATANH: return odd_fn("ATANH", ::atanh, u);
